@@ -11,6 +11,7 @@ reference model below (statement of C20 + class docstring of ValueMapping).
 """
 
 import re
+import bisect
 
 from hypothesis import strategies as st
 
@@ -281,10 +282,6 @@ class Model:
         cuts = sorted(cuts)
         return list(zip(cuts[:-1], cuts[1:]))
 
-    def expected_binary(self, d):
-        "what tobinary()/items() must show for entry d: list of predicates"
-        return d
-
 
 def adjusted_values(n_map, values, default):
     "Values list adjusted to the ValueMap size (None: sizes differ, no default)"
@@ -403,7 +400,7 @@ def _values_strings(n):
 
 
 @st.composite
-def mapping_recipe(draw, types, valid_only=False):
+def mapping_recipe(draw, types):
     typ = draw(st.sampled_from(types))
     tmin, tmax = S.INT_RANGE[typ]
     # window in which most numbers fall, so that entries touch and overlap
@@ -664,7 +661,6 @@ def check_mapping(ctx, rec, vm, model, exhaustive):
     nvals += len(points)
     if not exhaustive:
         starts = [a for a, _ in segs]
-        import bisect
         for v in _lcg_points(rec['seed'], 200, tmin, tmax):
             k = bisect.bisect_right(starts, v) - 1
             acc, why = claims[k]
@@ -885,10 +881,6 @@ def mapping_oracle(ctx, rec, exhaustive):
             if adj is None:
                 ctx.event('outcome:size-mismatch-rejected')
                 return
-            if shape_model.ambiguous or shape_model.empty:
-                # the neighbour rule does not define this mapping
-                ctx.event('outcome:undefined-mapping-rejected')
-                return
             bad_oct = [render_num(n) for e in entries for n in entry_nums(e)
                        if is_oct_with_zero(n)]
             if not retried and isinstance(exc, ModelError) and \
@@ -901,6 +893,10 @@ def mapping_oracle(ctx, rec, exhaustive):
                 valuemap = [render_entry(e) for e in entries]
                 retried = True
                 continue
+            if shape_model.ambiguous or shape_model.empty:
+                # the neighbour rule does not define this mapping
+                ctx.event('outcome:undefined-mapping-rejected')
+                return
             ctx.fail('create:valid-mapping-rejected-' + type(exc).__name__,
                      'ValueMap %r Values %r default %r: %s' % (
                          valuemap, values, rec['default'], exc))
@@ -1076,7 +1072,7 @@ def malformed_oracle(ctx, rec):
 
 SUBCHECKS = [
     Sub('mapping', strategy=mapping_strategy, oracle=mapping_oracle_all,
-        quick=(16, 300), thorough=(16, 12000), budget=(70, 1200)),
+        quick=(16, 240), thorough=(16, 12000), budget=(60, 1200)),
     Sub('malformed', strategy=malformed_recipe, oracle=malformed_oracle,
-        quick=(8, 400), thorough=(16, 20000), budget=(70, 1200)),
+        quick=(8, 300), thorough=(16, 20000), budget=(60, 1200)),
 ]
